@@ -23,6 +23,8 @@ PayloadStep(e, s) ==
   LET it == Items(e.units, 1, s.stapa, s.pend, <<>>) IN
   IF e.res # "ok" THEN [reason |-> "payload_panic", s |-> s]
   ELSE IF e.input # AnnexB(e.units, e.scs) THEN [reason |-> "harness_input", s |-> s]
+  \* the access units lie in one caller buffer: a call must not write into its window nor into what lies behind it
+  ELSE IF ~e.stream_intact THEN [reason |-> "wrote_into_callers_stream_buffer", s |-> s]
   ELSE LET m == MatchItems(it.items, 1, e.frags, 1, s.mtu) IN
        IF m # "" THEN [reason |-> m, s |-> s]
        ELSE LET rr == RxReason(s.rx, e.frags, e.deps, 1) IN
